@@ -48,7 +48,7 @@ theorem any_key_eq (l : List (Nat × Nat)) (p : Nat) :
       simp [h1, h2]
 
 /-- `FullnameInfo::new`: the node's declarations, plus the inherited ones it does not override. -/
-theorem mem_fullnameInfoNew (decls cur : List (Nat × Nat)) (hd : (decls.map Prod.fst).Nodup)
+theorem mem_fullnameInfoNew_sc (decls cur : List (Nat × Nat)) (hd : (decls.map Prod.fst).Nodup)
     (p ns : Nat) :
     (p, ns) ∈ fullnameInfoNew decls cur ↔
       decls.lookup p = some ns ∨ (decls.lookup p = none ∧ (p, ns) ∈ cur) := by
@@ -105,13 +105,13 @@ theorem FrameInv.push {s : FStack} {frames : List (List (Nat × Nat))} (h : Fram
   | cons d rest =>
     simp only [List.isEmpty_cons, Bool.false_eq_true, ↓reduceIte, FStack.top, List.headD_cons]
     refine ⟨fullnameInfoNew_nodup _ _ hd h.nodup, fun p ns => ?_⟩
-    rw [mem_fullnameInfoNew _ _ hd, scopeOf]
+    rw [mem_fullnameInfoNew_sc _ _ hd, scopeOf]
     cases hl : (d :: rest).lookup p with
     | none => simp [← h.mem, FStack.top]
     | some n => simp
 
 /-- `pop(has_namespace_declarations)` undoes `push(namespace_declarations)`. -/
-theorem FStack.pop_push (s : FStack) (decls : List (Nat × Nat)) :
+theorem FStack.pop_push_sc (s : FStack) (decls : List (Nat × Nat)) :
     (s.push decls).pop (!decls.isEmpty) = s := by
   unfold FStack.push FStack.pop
   cases decls <;> simp
